@@ -78,50 +78,56 @@ structure Req where
   headers : Hdrs := []
 deriving Repr
 
+/-- r->http_host when it is not blank -/
+def hostNonBlank (r : Req) : Option Bytes :=
+  match r.host with
+  | some h => if h.isEmpty then none else some h
+  | none => none
+
+/-- value of the "Forwarded" field proxy_set_Forwarded() writes (flags ≠ 0) -/
+def forwardedValue (flags : Nat) (r : Req) (hs : Hdrs) : Bytes :=
+  let base : Bytes := match getHdr hs "Forwarded" with
+    | some b => b ++ [44, sp]
+    | none =>
+      match getHdr hs "X-Forwarded-For" with
+      | some xff =>
+        (xffTokens xff).flatMap fun t =>
+          if t.contains colon then ofString "for=\"[" ++ bsEscape t ++ ofString "]\", "
+          else ofString "for=\"" ++ bsEscape t ++ ofString "\", "
+      | none => []
+  let (b1, semi1) : Bytes × Bool :=
+    if flags &&& 1 ≠ 0 then (base ++ ofString "for=" ++ r.remoteAddr, true) else (base, false)
+  let (b2, semi2) : Bytes × Bool :=
+    if flags &&& 2 ≠ 0 then
+      (b1 ++ (if semi1 then [59] else []) ++
+        ofString (if r.isSsl then "proto=https" else "proto=http"), true)
+    else (b1, semi1)
+  let (b3, semi3) : Bytes × Bool :=
+    if flags &&& 4 ≠ 0 then
+      match hostNonBlank r with
+      | some h => (b2 ++ (if semi2 then [59] else []) ++ ofString "host=\"" ++ bsEscape h ++ [34], true)
+      | none => (b2, semi2)
+    else (b2, semi2)
+  if flags &&& 16 ≠ 0 then
+    match r.remoteUser with
+    | some u => b3 ++ (if semi3 then [59] else []) ++ ofString "remote_user=\"" ++ bsEscape u ++ [34]
+    | none => b3
+  else b3
+
+/-- "Forwarded" (only with proxy.forwarded options) -/
+def setFwdForwarded (flags : Nat) (r : Req) (hs : Hdrs) : Hdrs :=
+  if flags = 0 then hs else setHdr hs "Forwarded" (forwardedValue flags r hs)
+
+/-- X-Host / X-Forwarded-Host -/
+def setFwdHost (r : Req) (hs : Hdrs) : Hdrs :=
+  match hostNonBlank r with
+  | some h => setHdr (setHdr hs "X-Host" h) "X-Forwarded-Host" h
+  | none => hs
+
 /-- proxy_set_Forwarded() -/
 def setForwarded (flags : Nat) (r : Req) (hs : Hdrs) : Hdrs :=
-  let hostNonBlank : Option Bytes := match r.host with
-    | some h => if h.isEmpty then none else some h
-    | none => none
-  -- "Forwarded"
-  let hs1 : Hdrs :=
-    if flags = 0 then hs else
-    let existing := getHdr hs "Forwarded"
-    let base : Bytes := match existing with
-      | some b => b ++ [44, sp]
-      | none =>
-        match getHdr hs "X-Forwarded-For" with
-        | some xff =>
-          (xffTokens xff).flatMap fun t =>
-            if t.contains colon then ofString "for=\"[" ++ bsEscape t ++ ofString "]\", "
-            else ofString "for=\"" ++ bsEscape t ++ ofString "\", "
-        | none => []
-    let (b1, semi1) : Bytes × Bool :=
-      if flags &&& 1 ≠ 0 then (base ++ ofString "for=" ++ r.remoteAddr, true) else (base, false)
-    let (b2, semi2) : Bytes × Bool :=
-      if flags &&& 2 ≠ 0 then
-        (b1 ++ (if semi1 then [59] else []) ++
-          ofString (if r.isSsl then "proto=https" else "proto=http"), true)
-      else (b1, semi1)
-    let (b3, semi3) : Bytes × Bool :=
-      if flags &&& 4 ≠ 0 then
-        match hostNonBlank with
-        | some h => (b2 ++ (if semi2 then [59] else []) ++ ofString "host=\"" ++ bsEscape h ++ [34], true)
-        | none => (b2, semi2)
-      else (b2, semi2)
-    let b4 : Bytes :=
-      if flags &&& 16 ≠ 0 then
-        match r.remoteUser with
-        | some u => b3 ++ (if semi3 then [59] else []) ++ ofString "remote_user=\"" ++ bsEscape u ++ [34]
-        | none => b3
-      else b3
-    setHdr hs "Forwarded" b4
-  -- legacy X-* fields
-  let hs2 := appendHdr hs1 "X-Forwarded-For" r.remoteAddr
-  let hs3 := match hostNonBlank with
-    | some h => setHdr (setHdr hs2 "X-Host" h) "X-Forwarded-Host" h
-    | none => hs2
-  setHdr hs3 "X-Forwarded-Proto" r.scheme
+  setHdr (setFwdHost r (appendHdr (setFwdForwarded flags r hs) "X-Forwarded-For" r.remoteAddr))
+    "X-Forwarded-Proto" r.scheme
 
 /-- what the header loop of proxy_create_env() does with one stored request field -/
 inductive Act
@@ -176,46 +182,74 @@ def stdinAppend (st : RawSt) : RawSt :=
     { st1 with out := st1.out ++ lastChunk, reqlen := st1.reqlen + 6 }
   else st1
 
-/-- the header block of proxy_create_env(): `none` = 411 -/
-def headerBlock (c : Cfg) (r : Req) : Option (Bytes × Bool) :=
+/-- request line and the Host field.  Without any Host the request is sent as HTTP/1.0
+    (`b->ptr[b->used-2] = '0'`) -/
+def reqLine (c : Cfg) (r : Req) : Bytes × Option (Bytes × Bytes) :=
   let m := if r.h2ConnectExt then ofString "GET" else r.method
   let line0 := m ++ [sp] ++ r.target ++ ofString (if c.forceHttp10 then " HTTP/1.0" else " HTTP/1.1")
-  let line : Bytes :=
-    match c.replaceHost, r.host with
-    | some h, _ => line0 ++ ofString "\r\nHost: " ++ h
-    | none, some h => line0 ++ ofString "\r\nHost: " ++ h
-    | none, none => line0.dropLast ++ [48]
-  -- Content-Length / Transfer-Encoding
-  let step : Option (Bytes × Hdrs × Bool) :=
-    if c.authorizer then some (line ++ ofString "\r\nContent-Length: 0", r.headers, false)
-    else if r.bodyLen > 0 ∨ (r.bodyLen = 0 ∧ !r.isGetOrHead) then
-      (match getHdr r.headers "Content-Length" with
-       | some _ => some (line, r.headers, false)
-       | none => some (line, setHdr r.headers "Content-Length" (intDec r.bodyLen), false))
-    else if r.h2ConnectExt then some (line, r.headers, false)
-    else if r.bodyLen < 0 ∧ c.streaming then
-      (if c.forceHttp10 then (if r.bodyLen = -1 then none else some (line, r.headers, false))
-       else some (line ++ ofString "\r\nTransfer-Encoding: chunked", r.headers, true))
-    else some (line, r.headers, false)
-  match step with
+  match c.replaceHost, r.host with
+  | some h, _ => (line0, some (ofString "Host", h))
+  | none, some h => (line0, some (ofString "Host", h))
+  | none, none => (line0.dropLast ++ [48], none)
+
+/-- Content-Length / Transfer-Encoding decision of proxy_create_env(): the field written right
+    after Host (if any), the stored request fields afterwards (a Content-Length may have been
+    added to them), and whether the body is sent chunked; `none` = 411 -/
+def framing (c : Cfg) (r : Req) : Option (Option (Bytes × Bytes) × Hdrs × Bool) :=
+  if c.authorizer then some (some (ofString "Content-Length", ofString "0"), r.headers, false)
+  else if r.bodyLen > 0 ∨ (r.bodyLen = 0 ∧ !r.isGetOrHead) then
+    (match getHdr r.headers "Content-Length" with
+     | some _ => some (none, r.headers, false)
+     | none => some (none, setHdr r.headers "Content-Length" (intDec r.bodyLen), false))
+  else if r.h2ConnectExt then some (none, r.headers, false)
+  else if r.bodyLen < 0 ∧ c.streaming then
+    (if c.forceHttp10 then (if r.bodyLen = -1 then none else some (none, r.headers, false))
+     else some (some (ofString "Transfer-Encoding", ofString "chunked"), r.headers, true))
+  else some (none, r.headers, false)
+
+/-- did the client send a Connection field other than "close" to an HTTP/1.1 backend request?
+    (then "te" / "upgrade" are listed after "close") -/
+def connListed (c : Cfg) (r : Req) (hs : Hdrs) : Bool :=
+  match (hs.find? fun (k, _) => nameIs k "Connection").map (·.2) with
+  | some v => !c.forceHttp10 && decide (r.version ≥ 1) && !eqIcase v (ofString "close")
+  | none => false
+
+def connValue (c : Cfg) (r : Req) (hs : Hdrs) : Bytes :=
+  let te : Bool := hs.any fun (k, v) => nameIs k "TE" && fieldAct c r.version k v = .emit
+  let upgrade : Bool := hs.any fun (k, v) => nameIs k "Upgrade" && !c.forceHttp10 && !v.isEmpty
+  ofString "close" ++ ((if te then ofString ", te" else []) ++ (if upgrade then ofString ", upgrade" else []))
+
+/-- the fields that close the header block: mod_proxy always sends Connection: close -/
+def connTail (c : Cfg) (r : Req) (hs : Hdrs) : Hdrs :=
+  if connListed c r hs then [(ofString "Connection", connValue c r hs)]
+  else if r.h2ConnectExt then
+    (if (getHdr hs "Sec-WebSocket-Key").isSome then []
+     else [(ofString "Sec-WebSocket-Key", ofString "MDAwMDAwMDAwMDAwMDAwMA==")]) ++
+    [(ofString "Upgrade", ofString "websocket"), (ofString "Connection", ofString "close, upgrade")]
+  else [(ofString "Connection", ofString "close")]
+
+/-- the request head proxy_create_env() builds, structured: request line, the fields in the
+    order they are written, chunked?; `none` = 411 -/
+def headFields (c : Cfg) (r : Req) : Option (Bytes × Hdrs × Bool) :=
+  let (line, hostF) := reqLine c r
+  match framing c r with
   | none => none
-  | some (b0, hs0, chunked) =>
+  | some (ff, hs0, chunked) =>
     let hs := setForwarded c.forwarded r hs0
-    let connhdr : Option Bytes := (hs.find? fun (k, _) => nameIs k "Connection").map (·.2)
-    let te : Bool := hs.any fun (k, v) => nameIs k "TE" && fieldAct c r.version k v = .emit
-    let upgrade : Bool := hs.any fun (k, v) => nameIs k "Upgrade" && !c.forceHttp10 && !v.isEmpty
-    let b1 := b0 ++ emitFields c r.version hs
-    let tail : Bytes :=
-      if connhdr.isSome && !c.forceHttp10 && r.version ≥ 1
-         && !(match connhdr with | some v => eqIcase v (ofString "close") | none => false) then
-        ofString "\r\nConnection: close" ++ (if te then ofString ", te" else []) ++
-          (if upgrade then ofString ", upgrade" else []) ++ ofString "\r\n\r\n"
-      else if r.h2ConnectExt then
-        (if (getHdr hs "Sec-WebSocket-Key").isSome then []
-         else ofString "\r\nSec-WebSocket-Key: MDAwMDAwMDAwMDAwMDAwMA==") ++
-        ofString "\r\nUpgrade: websocket\r\nConnection: close, upgrade\r\n\r\n"
-      else ofString "\r\nConnection: close\r\n\r\n"
-    some (b1 ++ tail, chunked)
+    some (line,
+          hostF.toList ++ ff.toList ++ hs.filter (fun (k, v) => fieldAct c r.version k v = .emit) ++
+            connTail c r hs,
+          chunked)
+
+/-- serialisation: request line, CRLF name ": " value for every field, blank line -/
+def renderHead (line : Bytes) (fs : Hdrs) : Bytes :=
+  line ++ fs.flatMap (fun (k, v) => emitField k v) ++ crlf ++ crlf
+
+/-- the header block of proxy_create_env(): `none` = 411 -/
+def headerBlock (c : Cfg) (r : Req) : Option (Bytes × Bool) :=
+  match headFields c r with
+  | none => none
+  | some (line, fs, chunked) => some (renderHead line fs, chunked)
 
 /-- proxy_create_env() -/
 def createEnv (c : Cfg) (r : Req) (pending : Bytes) : Res :=
@@ -240,6 +274,68 @@ def complete (chunked : Bool) (st : RawSt) : RawSt :=
     (if chunked then stdinAppend { st with reqlen := -st.reqlen }
      else RawSt.moveAll { st with reqlen := -st.reqlen })
   else st
+
+/-- what the request parser guarantees about the stored request (request.c): Transfer-Encoding
+    is consumed, never stored; when it decides the framing (reqbody_length < 0) a Content-Length
+    is refused or unset; a field name is stored once -/
+structure WfReq (r : Req) : Prop where
+  noTE : ∀ p ∈ r.headers, nameIs p.1 "Transfer-Encoding" = false
+  clOpen : r.bodyLen < 0 → ∀ p ∈ r.headers, nameIs p.1 "Content-Length" = true → p.2 = []
+
+/-- whole request as the gateway runs it: create_env with `seg0` queued, later arrivals,
+    completion of a streamed chunked body, everything flushed; `none` = 411 -/
+def run (c : Cfg) (r : Req) (seg0 : Bytes) (segs : List Bytes) : Option (RawSt × Bool) :=
+  match createEnv c r seg0 with
+  | .status _ => none
+  | .ok st chunked =>
+    let st1 := complete chunked (segs.foldl (arrive c chunked) st)
+    some (if st1.pending.isEmpty ∨ c.authorizer then st1
+          else if chunked then stdinAppend st1 else st1.moveAll, chunked)
+
+/-! receiving side: the head of an HTTP/1.x request (RFC 9112 2.1, 5): request line, field lines
+    "name:" OWS value, empty line -/
+
+def isOws (b : UInt8) : Bool := b = sp || b = ht
+
+/-- bytes up to the first CRLF, and what follows it -/
+def takeLine : Bytes → Option (Bytes × Bytes)
+  | [] => none
+  | a :: t =>
+    match t with
+    | [] => none
+    | b :: rest =>
+      if a = cr ∧ b = lf then some ([], rest)
+      else match takeLine t with
+        | some (l, r) => some (a :: l, r)
+        | none => none
+
+def decodeFields : Nat → Bytes → Option (Hdrs × Bytes)
+  | 0, _ => none
+  | fuel + 1, s =>
+    match takeLine s with
+    | none => none
+    | some (l, rest) =>
+      if l.isEmpty then some ([], rest) else
+      match splitAtByte colon l with
+      | (_, none) => none
+      | (k, some v) =>
+        match decodeFields fuel rest with
+        | some (fs, body) => some ((k, v.dropWhile isOws) :: fs, body)
+        | none => none
+
+/-- (request line, fields, bytes after the empty line) -/
+def decodeHead (s : Bytes) : Option (Bytes × Hdrs × Bytes) :=
+  match takeLine s with
+  | none => none
+  | some (line, rest) =>
+    match decodeFields (rest.length + 1) rest with
+    | some (fs, body) => some (line, fs, body)
+    | none => none
+
+/-- a field the serialisation is faithful for: token-like name, value without CR and without
+    leading whitespace (what the request parser stores) -/
+def WfField (f : Bytes × Bytes) : Prop :=
+  f.1 ≠ [] ∧ colon ∉ f.1 ∧ cr ∉ f.1 ∧ cr ∉ f.2 ∧ ∀ b, f.2.head? = some b → isOws b = false
 
 /-- a streamed (Transfer-Encoding: chunked) upload as the gateway runs it: create_env with the
     first segment queued and the total length unknown (wb_reqlen negative), later arrivals
